@@ -47,9 +47,9 @@ def label_of(handle) -> str:
 
 
 class SimLoop(asyncio.SelectorEventLoop):
-    def __init__(self):
+    def __init__(self, base=0.0):
         super().__init__(NullSelector())
-        self._vt = 0.0
+        self._vt = base   # a monotonic clock does not start at zero: benches that do not need t=0 use another base
         self._clock_resolution = 1e-9
         self.log = []
         self.unhandled = []
@@ -142,11 +142,11 @@ class SimLoop(asyncio.SelectorEventLoop):
 _installed = None
 
 
-def install() -> SimLoop:
+def install(base=0.0) -> SimLoop:
     """create a SimLoop, make it the current and *running* loop, point the library's eager-task
     helper at pure-Python tasks"""
     global _installed
-    loop = SimLoop()
+    loop = SimLoop(base)
     asyncio.set_event_loop(loop)
     events._set_running_loop(loop)
     import threading
